@@ -235,6 +235,9 @@ let parse_op (toks : Stdlib.String.t list) : op =
   | ["dmg"; "deldir"; n] -> ODamage (DDelArtDir (num_tok n))
   | ["dmg"; "setart"; n; b] -> ODamage (DSetArt (num_tok n, bytes_of_ostring (blob_tok b)))
   | ["dmg"; "junk"] -> ODamage DJunk
+  | ["dmg"; "rawpj"; b] ->
+      (* arbitrary bytes written to patches_state.json: the model reads them itself (JsonState.pj_of_file) *)
+      ODamage (DSetPj (pj_of_file (bytes_of_ostring (blob_tok b))))
   | ["dmg"; "pj"; "missing"] -> ODamage (DSetPj JMissing)
   | ["dmg"; "pj"; "garbage"] -> ODamage (DSetPj JGarbage)
   | ["dmg"; "pj"; k] -> ODamage (DSetPj (try Hashtbl.find snaps_pj (int_of_string k) with Not_found -> JMissing))
@@ -300,6 +303,18 @@ let pr_line (o : out) (w : world) (l : netobs list) =
   let d = w.w_disk in
   Printf.sprintf "out=%s sj=%s pj=%s arts=%s junk=%d net=%s" (pr_out o) (pr_sj d.sj) (pr_pj d.pj)
     (pr_arts d) (if d.junk then 1 else 0) (Stdlib.String.concat ";" (List.map pr_net l))
+
+let pr_reading (tag : Stdlib.String.t) (name : Stdlib.String.t) (r : resp option) =
+  match r with
+  | None -> Printf.printf "%s:%s=err\n" tag name
+  | Some r ->
+      let p = (match r.r_patch with
+          | None -> "-"
+          | Some p -> Printf.sprintf "%s:%s:%s:%s" (decimal_of_n p.p_num) (hx p.p_hash) (hx p.p_url) (ohx p.p_sig)) in
+      let rb = (match r.r_rb with
+          | None -> "-" | Some [] -> "e"
+          | Some l -> Stdlib.String.concat ";" (List.map decimal_of_n l)) in
+      Printf.printf "%s:%s=a=%s p=%s rb=%s\n" tag name (if r.r_avail then "t" else "f") p rb
 
 let rec nat_of_int i = if i <= 0 then O else S (nat_of_int (i - 1))
 let analyse : [ `None | `Crash | `Fail ] ref = ref `None
@@ -559,16 +574,12 @@ let () =
                      let v = node () in (key, v)))
              | _ -> failwith ("json: bad token " ^ t) in
            let j = node () in
-           (match resp_of_json j with
-            | None -> Printf.printf "json:%s=err\n" name
-            | Some r ->
-                let p = (match r.r_patch with
-                    | None -> "-"
-                    | Some p -> Printf.sprintf "%s:%s:%s:%s" (decimal_of_n p.p_num) (hx p.p_hash) (hx p.p_url) (ohx p.p_sig)) in
-                let rb = (match r.r_rb with
-                    | None -> "-" | Some [] -> "e"
-                    | Some l -> Stdlib.String.concat ";" (List.map decimal_of_n l)) in
-                Printf.printf "json:%s=a=%s p=%s rb=%s\n" name (if r.r_avail then "t" else "f") p rb)
+           pr_reading "json" name (resp_of_json j)
+       | ["jsonbody"; name; body] ->
+           (* what the model reads from the BYTES of a response body (JsonText.resp_of_body: serde_json's strict reader
+              at the struct's fields, its scanner at unknown keys, then the derived Deserialize) *)
+           let b = if body = "e" then [] else bytes_of_ostring (unhex_o body) in
+           pr_reading "jsonbody" name (resp_of_body b)
        | ["sdiff"; o; nw; ms] ->
            let p = simple_diff (bytes_of_ostring (blob_tok o)) (bytes_of_ostring (blob_tok nw)) (parse_matches ms) in
            let s = ostring_of_bytes p in
